@@ -110,6 +110,8 @@ func Catalog() []VarSpec {
 	c = append(c, vs(`F.M[F.Key]`, TInt, reflect.Int64, "map-var", true, func() *Path { return P("F.M", keyVar("F")) }))
 	c = append(c, vs(`F.MS["k1"]`, TStr, reflect.String, "map-const", true, func() *Path { return P("F.MS", "k1") }))
 	c = append(c, vs(`F.MF["k1"]`, TFloat, reflect.Float64, "map-const", true, func() *Path { return P("F.MF", "k1") }))
+	// documented rejected case: an int64 value into a map whose element type is int
+	c = append(c, vs(`F.MInt["k1"]`, TInt, reflect.Int, "map-elem-kind-mismatch", true, func() *Path { return P("F.MInt", "k1") }))
 	c = append(c, vs(`F.MI[1]`, TInt, reflect.Int64, "map-const", true, func() *Path { return P("F.MI", 1) }))
 	c = append(c, vs(`F.MP["a"].X`, TInt, reflect.Int64, "map-ptr", true, func() *Path { return P("F.MP", "a", ".X") }))
 	// JSON members in both spellings
